@@ -51,13 +51,18 @@ def die_tree(c):
     d = {"width": X.num(c["W"] * u), "height": X.num(c["H"] * u)}
     if c["regions"]:
         d["regions"] = [rect_entry(r, c["unit"], r[4]) for r in c["regions"]]
+        if c.get("flat") and len(c["regions"]) == 1:
+            d["regions"] = d["regions"][0]  # the reader also takes a single rectangle without the enclosing list
     return d
 
 
 def die_text(c, flow=True):
     u = Fr(c["unit"])
     s = "width: %s\nheight: %s\n" % (X.dec(c["W"] * u), X.dec(c["H"] * u))
-    if c["regions"]:
+    if c["regions"] and c.get("flat") and len(c["regions"]) == 1:
+        r = c["regions"][0]
+        s += "regions: [%s, '%s']\n" % (", ".join(rect_entry(r, c["unit"], None, True)), r[4])
+    elif c["regions"]:
         if flow:
             s += "regions: [%s]\n" % ", ".join(
                 "[%s, '%s']" % (", ".join(rect_entry(r, c["unit"], None, True)), r[4]) for r in c["regions"])
